@@ -44,6 +44,7 @@ class C20(Prop):
         "NV.C20.tie_load_virtual_tree",
         "NV.C20.tie_seteuid_write_dominated", "NV.C20.tie_giveuid_writes_dominated", "NV.C20.tie_export_write_dominated",
         "NV.C20.tie_master_write_dominated", "NV.C20.tie_bind_write_dominated",
+        "NV.C20.tie_export_semantics", "NV.C20.tie_seteuid_int_semantics", "NV.C20.tie_seteuid_str_semantics",
     ]
     consts = [("autoTrustBackbone", "NV_AUTO_TRUST_BACKBONE"), ("autoSeteuid", "NV_AUTO_SETEUID"),
               ("tNumber", "T_NUMBER"), ("tString", "T_STRING"), ("msMudlibLimbo", "MS_MUDLIB_LIMBO"),
@@ -70,10 +71,10 @@ class C20(Prop):
                   "virtual objects made by master::compile_object, also with a master whose creator_file calls back into itself and "
                   "drops its euid mid-creation) and every master policy the specification oracle judgeEv (10 clauses: known, euid, "
                   "uid, creation, noeuid, export, asked, bind, fp, vo) accepts the model's event trace (model_satisfies_spec); the "
-                  "model is tied to the source by 34 regenerated bridging lemmas: path conditions of the euid tests, decision trees "
+                  "model is tied to the source by 37 regenerated bridging lemmas: path conditions of the euid tests, decision trees "
                   "of give_uid_to_object / f_seteuid / f_export_uid / reload_object / set_master / f_bind / load_virtual_object "
-                  "obtained by symbolic execution of their clang AST and proved equal to the model (tie_giveuid_semantics: for every "
-                  "configuration, creator and creator_file answer), dominance theorems (every uid/euid write on every path is "
+                  "obtained by symbolic execution of their clang AST and proved equal to the model (tie_giveuid_semantics, tie_export_semantics, tie_seteuid_*_semantics: for every "
+                  "configuration, world, object and master answer), dominance theorems (every uid/euid write on every path is "
                   "preceded by the master apply and verdict it needs), an inventory of EVERY write to object_t.uid/euid in src/ and "
                   "lib/, uid records never renamed after the first master load; and by running the real driver (ASan+UBSan) with a "
                   "policy-switchable logging master (8 variants) and the model on the same generated histories, reaching object "
